@@ -1444,6 +1444,16 @@ class VarSub(Vars):
         else:
             return self.to_affine().__ge__(other)
 
+    def get(self):
+        """
+        Return the optimal solution of the selected entries, in the
+        shape of the selection.
+        """
+
+        var_sol = np.asarray(super().get()).reshape((-1, ))
+
+        return var_sol[self.indices]
+
     def __call__(self):
 
         return self.to_affine()()
